@@ -310,7 +310,8 @@ PROPS['C12'] = {
 
 
 PROPS['C14'] = {
-    'theorems': ['RQ.Args.C14_options', 'RQ.Args.C14_push', 'RQ.Args.C14_same'],
+    'theorems': ['RQ.Args.C14_options', 'RQ.Args.C14_push', 'RQ.Args.C14_same', 'RQ.Args.C14_add', 'RQ.Args.C14_repeated_refused',
+                 'RQ.Args.C14_needs_single_once', 'RQ.Args.C14_goal_first_arg'],
     'verdict': 'SPEC',
     'jobs': push_jobs(['inv=2'], ['inv=3']),
     'nontrivial': lambda l: any(o in l.split('|=>|')[0] for o in ('--mmap', ' -v', '--stats', '--color', '-A multiapply')) or ' -q' not in l.split('|=>|')[0],
@@ -319,9 +320,11 @@ PROPS['C14'] = {
             "--mmap (25%), --stats (10%), --color always|never (20%), -A multiapply (10%); trees contain zero-length source "
             "files, series contain zero-length patch files, 45% failing series. non-trivial = an invocation with a "
             "presentation option other than plain -q",
-    'explanation': "Theorem C14_options/C14_push/C14_same: in the option model, removing or adding -q, -v, --mmap, --stats, "
-                   "--color X, -A X anywhere in an invocation yields the same configuration, hence the same outcome and world "
-                   "of push - the driver model has no presentation parameter at all. On the implementation: every generated "
+    'explanation': "Theorem C14_options/C14_push/C14_same/C14_add: in the option model, for an invocation getopts accepts (no option "
+                   "other than -v/-A given twice: SingleOnce), removing or adding -q, -v, --mmap, --stats, --color X, -A X anywhere "
+                   "yields the same configuration, hence the same outcome and world of push - the driver model has no presentation "
+                   "parameter at all; C14_repeated_refused: an invocation that repeats such an option is refused, nothing touched "
+                   "(as the tool does: 'Option quiet given more than once'). On the implementation: every generated "
                    "invocation, whatever its presentation options, must produce exactly the exit status and tree of that "
                    "option-free model (and of pushSpec).",
     'trusted': PUSH_TRUSTED,
@@ -374,7 +377,9 @@ PROPS['C13'] = {
 
 
 PROPS['C05'] = {
-    'theorems': ['RQ.Abs.C05_apply_refines', 'RQ.Abs.C05_tree_on_disk', 'RQ.Abs.C05_oracle_agrees', 'RQ.Abs.C05_disk_is_oracle', 'RQ.Abs.C05_pushSpec_agrees', 'RQ.Abs.C05_disk_is_pushSpec', 'RQ.Abs.C05_exit_and_names'],
+    'theorems': ['RQ.Abs.C05_apply_refines', 'RQ.Abs.C05_tree_on_disk', 'RQ.Abs.C05_oracle_agrees', 'RQ.Abs.C05_disk_is_oracle', 'RQ.Abs.C05_pushSpec_agrees', 'RQ.Abs.C05_disk_is_pushSpec', 'RQ.Abs.C05_exit_and_names',
+                 'RQ.Refine2.C05_push_refines_pushSpec', 'RQ.Refine2.C05_push_refines_pushSpec_any', 'RQ.Refine2.C05_push_refines_pushSpec_files', 'RQ.Refine2.C05_push_refines_pushSpec_whole'],
+    'extra_modules': ['RQ.Props.C05Refine'],
     'verdict': 'SPEC',
     'jobs': push_jobs(['inv=2', 'patches=5'], ['inv=3', 'patches=6'], nq=4000) +
             [{'quick': ['pushsched', 'seed={seed}', 'n=900', 'perws=3', 'fail=75', 'morefail=70'], 'thorough': ['pushsched', 'seed={seed}', 'n=30000', 'perws=6', 'fail=75', 'morefail=70']}],
@@ -481,7 +486,11 @@ PROPS['C01'] = {
                  'RQ.C01_e2e_parse', 'RQ.C01_e2e_forward', 'RQ.C01_e2e_reverse', 'RQ.C01_e2e_reports', 'RQ.C01_e2e_c0_only', 'RQ.C01_e2e_pushSpec', 'RQ.C01_e2e_pushSpec_R', 'RQ.C01_e2e_push', 'RQ.C01_e2e_push_R', 'RQ.C01_e2e_push_eq_spec', 'RQ.C01_e2e_create', 'RQ.C01_e2e_delete', 'RQ.C01_e2e_pushSpec_create', 'RQ.C01_e2e_pushSpec_delete', 'RQ.C01_e2e_push_create', 'RQ.C01_e2e_push_delete'],
     'extra_modules': ['RQ.Props.C01Text', 'RQ.Props.C01Diff', 'RQ.Props.C01E2E'],
     'verdict': 'C01',
-    'jobs': [{'quick': ['diff', 'seed={seed}', 'n=40000', 'cli=4'], 'thorough': ['diff', 'seed={seed}', 'n=1000000', 'cli=4']}],
+    'jobs': [{'quick': ['diff', 'seed={seed}', 'n=40000', 'cli=4'], 'thorough': ['diff', 'seed={seed}', 'n=1000000', 'cli=4']},
+             # the diff texts the theorems C01_e2e_* speak about, computed by Lean (RQ.diffTextOpt), pushed through the real code
+             {'gen': {'quick': ['lake', 'env', 'lean', '--run', 'E2EGen.lean', '4000', '{seed}'],
+                      'thorough': ['lake', 'env', 'lean', '--run', 'E2EGen.lean', '200000', '{seed}']},
+              'engine': 'diff-replay', 'args': ['cli=8']}],
     'nontrivial': lambda l: l.split('|')[6].count('4040202d') >= 1,
     'histogram': lambda c, d: ['dir=' + c.split('|')[4], 'strip=' + c.split('|')[5], 'hunks=%d' % min(6, c.split('|')[6].count('4040202d')),
                                'A=' + ('absent' if c.split('|')[2] == '~' else 'empty' if c.split('|')[2] == '-' else 'file'),
